@@ -316,9 +316,51 @@ func (m *Machine) get(f *Frame, v ssa.Value) Value {
 		return &FuncV{Bltin: x}
 	}
 	if r, ok := f.env[v]; ok {
+		if lz, isLazy := r.(*LazyV); isLazy {
+			r = m.force(lz)
+			f.env[v] = r
+		}
 		return r
 	}
 	panic(m.unsupported("no value for %s (%T) in %s", v.Name(), v, f.fn))
+}
+
+// getRaw is get without forcing a lazy value (used where a value is only moved, not looked at).
+func (m *Machine) getRaw(f *Frame, v ssa.Value) Value {
+	if r, ok := f.env[v]; ok {
+		if _, isLazy := r.(*LazyV); isLazy {
+			return r
+		}
+	}
+	return m.get(f, v)
+}
+
+// force evaluates a lazy value (verifrt.Lazy*): the thunk runs to completion on the current
+// thread, nested inside the instruction that first looks at the value; it may fork like any code.
+func (m *Machine) force(lz *LazyV) Value {
+	if lz.forced {
+		return lz.V
+	}
+	th := m.cur
+	if th == nil {
+		panic(m.unsupported("lazy value forced outside a thread"))
+	}
+	base := len(th.stack)
+	var res Value
+	fr := m.pushFrame(th, lz.Fn.Fn, nil, lz.Fn.FV, nil)
+	fr.onExit = func(normal bool, r Value) { res = r }
+	for len(th.stack) > base {
+		if th.panic != nil || th.crashing {
+			panic(m.unsupported("panic or crash inside a lazy contract value"))
+		}
+		m.steps++
+		m.stepGuard(th, th.stack[len(th.stack)-1])
+	}
+	if th.panic != nil {
+		panic(m.unsupported("panic inside a lazy contract value"))
+	}
+	lz.forced, lz.V = true, res
+	return res
 }
 
 func (m *Machine) constValue(c *ssa.Const) Value {
@@ -797,7 +839,7 @@ func (m *Machine) exec(th *Thread, f *Frame, instr ssa.Instruction) {
 		f.env[in] = m.sliceToArrayPtr(m.get(f, in.X), in.Type())
 	case *ssa.Store:
 		p := m.get(f, in.Addr).(Ptr)
-		m.store(p, m.get(f, in.Val))
+		m.store(p, m.getRaw(f, in.Val))
 	case *ssa.TypeAssert:
 		f.env[in] = m.typeAssert(in, m.get(f, in.X))
 	case *ssa.Go:
